@@ -19,6 +19,7 @@ try:
                             '--no-evidence'], capture_output=True, text=True)
         lines = [l for l in r.stdout.splitlines() if l.startswith(('FINDING', 'VIOLATION', 'INCONCL', 'ANALYSIS', 'KNOWN'))]
         print('%s rc=%d' % (prop, r.returncode))
+        lines = [l for l in lines if not l.startswith('KNOWN')] + ['(%d KNOWN)' % len([l for l in lines if l.startswith('KNOWN')])]
         for l in lines[:6]:
             print('   ', l[:300])
         if r.returncode == 2: print(r.stdout[-600:], r.stderr[-600:])
